@@ -237,7 +237,7 @@ def gen_spec(rng):
               'system_f': rng.choice(['GDA94', 'AGD66', 'AGD84', 'NAD27']), 'system_t': rng.choice(['GDA2020', 'GDA94', 'NAD83']),
               'major_f': rng.choice([6378137.0, 6378160.0, 6378206.4]), 'minor_f': rng.choice([6356752.314, 6356774.719, 6356583.8]),
               'major_t': 6378137.0, 'minor_t': rng.choice([6356752.314, 6356752.31414])}
-    return {'header': header, 'subgrids': sgs, 'fields': fields}
+    return {'header': header, 'subgrids': sgs, 'fields': fields, 'nul_padding': rng.random() < 0.25}
 
 
 def build_file(spec):
